@@ -129,6 +129,10 @@ func init() {
 			fr.i.world.yieldOnFS = a[1].(bool)
 			return nil
 		},
+		vrt + "DelayAtFS": func(fr *frame, a []value) value {
+			fr.i.world.delayAtFS = a[1].(int)
+			return nil
+		},
 		vrt + "YieldOnLock": func(fr *frame, a []value) value {
 			fr.i.world.yieldOnLock = a[1].(bool)
 			return nil
@@ -149,6 +153,14 @@ func init() {
 				}
 			}
 			return nil
+		},
+		// NextTimer(): quiesce, let the earliest pending timer fire, quiesce
+		vrt + "NextTimer": func(fr *frame, a []value) value {
+			i := fr.i
+			i.quiesceAll()
+			fired := i.world.fireEarliestTimer()
+			i.quiesceAll()
+			return fired
 		},
 		vrt + "Observed": func(fr *frame, a []value) value {
 			x, ok := a[2].(int)
